@@ -72,6 +72,15 @@ example : sharedIterIds.length = 3 ∧ exclIterIds.length = 1 ∧ owningIterIds.
     (sharedIterIds ++ exclIterIds ++ owningIterIds).all
       (fun n => (table.structs.find? (·.name == n)).isSome) = true := by decide
 
+/-- The closures passed to `retain` and `mutate` are shown references into the cache that end with the call
+of the closure: their reference parameters are higher-ranked (`FnMut(&K, &V)`, elided), never tied to a
+lifetime of the function or of the receiver — so a predicate cannot keep a reference to an entry that
+`retain` is about to remove and drop, and a `mutate` closure cannot smuggle `&mut V` out. -/
+theorem C18_callbacks_higher_ranked :
+    callbacks.all (fun c => c.2.all (fun l => l == .elided)) = true := by decide
+
+example : 2 ≤ callbacks.length := by decide
+
 /-! ### non-vacuity: the table has the cache, two explicit impls, and the translator's ids -/
 example : (table.structs.find? (·.name == lruCacheId)).isSome = true := by decide
 
